@@ -209,7 +209,7 @@ func guestOnly() []sessAcct {
 
 func gateExpiryFamily(c *Case) {
 	r := c.R
-	if tooManyStalls() {
+	if tooManyStalls(c) {
 		c.Dist("skipped/after-repeated-stalls")
 		return
 	}
@@ -462,7 +462,7 @@ func b2i(b bool) int {
 
 func disconnectFamily(c *Case) {
 	r := c.R
-	if tooManyStalls() {
+	if tooManyStalls(c) {
 		c.Dist("skipped/after-repeated-stalls")
 		return
 	}
